@@ -89,12 +89,15 @@ var smallKnobs = []knob{
 	{"pkg/netpoll/defs_poller_epoll.go", regexp.MustCompile(`(?m)^(\s*MinPollEventsCap\s*=\s*)\d+`), "${1}1"},
 	{"pkg/netpoll/defs_poller_epoll.go", regexp.MustCompile(`(?m)^(\s*MaxAsyncTasksAtOneTime\s*=\s*)\d+`), "${1}3"},
 	{"eventloop_unix.go", regexp.MustCompile(`(?m)^(const iovMax\s*=\s*)\d+`), "${1}4"},
+	// the ring-buffer pool re-calibrates the largest capacity it keeps after this many Puts of one size class
+	{"pkg/pool/ringbuffer/ringbuffer.go", regexp.MustCompile(`(?m)^(\s*calibrateCallsThreshold\s*=\s*)\d+`), "${1}12"},
 }
 
 // Options of one instrumentation.
 type Options struct {
 	Tags       []string // build tags of the variant (poll_opt, gc_opt)
 	SmallKnobs bool
+	Race       bool              // rule R11: exported functions switch the goroutine to "gnet context" (race flavour)
 	Inject     map[string]string // relative path -> file content to add (export files)
 }
 
@@ -216,7 +219,7 @@ func Instrument(src, dst string, opt Options) (*Report, error) {
 		info := tc.infos[d]
 		for _, f := range parsed[d] {
 			rel := names[f]
-			rw := &rewriter{fset: fset, file: f, rel: rel, dir: d, info: info, rep: rep, isRoot: d == "."}
+			rw := &rewriter{fset: fset, file: f, rel: rel, dir: d, info: info, rep: rep, isRoot: d == ".", race: opt.Race}
 			rw.run()
 			var buf bytes.Buffer
 			if err := format.Node(&buf, fset, f); err != nil {
@@ -303,6 +306,7 @@ type rewriter struct {
 	need       map[string]bool   // sim packages to import
 	usedBefore map[string]bool
 	tmp        int
+	race       bool
 }
 
 func (rw *rewriter) pkgOf(x ast.Expr) string {
@@ -474,6 +478,9 @@ func (rw *rewriter) run() {
 		return e
 	})
 
+	if rw.race {
+		rw.enterGnet()
+	}
 	rw.fixImports()
 }
 
@@ -585,6 +592,29 @@ func (rw *rewriter) rangeMap(st *ast.RangeStmt) {
 	st.X = &ast.CallExpr{Fun: &ast.SelectorExpr{X: rw.use(pVsched), Sel: ast.NewIdent("MapKeys")}, Args: []ast.Expr{m}}
 	st.Body.List = append(pre, st.Body.List...)
 	rw.count("R5-maprange")
+}
+
+// enterGnet (rule R11, race flavour only): the harness runs outside the race
+// detector ("harness context"); whatever it calls in the code under test must
+// be seen by the detector again. Every exported function or method of the
+// gnet packages therefore starts with
+//
+//	defer vsched.Restore(vsched.EnterGnet())
+//
+// which is a no-op when the caller is the code under test itself.
+func (rw *rewriter) enterGnet() {
+	for _, d := range rw.file.Decls {
+		fd, ok := d.(*ast.FuncDecl)
+		if !ok || fd.Body == nil || !ast.IsExported(fd.Name.Name) {
+			continue
+		}
+		st := &ast.DeferStmt{Call: &ast.CallExpr{
+			Fun:  &ast.SelectorExpr{X: rw.use(pVsched), Sel: ast.NewIdent("Restore")},
+			Args: []ast.Expr{&ast.CallExpr{Fun: &ast.SelectorExpr{X: rw.use(pVsched), Sel: ast.NewIdent("EnterGnet")}}},
+		}}
+		fd.Body.List = append([]ast.Stmt{st}, fd.Body.List...)
+		rw.count("R11-enter-gnet")
+	}
 }
 
 func (rw *rewriter) usedNames() map[string]bool {
